@@ -122,6 +122,62 @@ def h_featlist_roundtrip(env, classes, yaml_layer=False):
         env.equal("value_%d" % k, y1[0, k], y2[0, k])
 
 
+def _object_state_roundtrip(env, obj, prefix="ciderpress"):
+    """what pickle / joblib / yaml's python-object tags do to an object graph: every instance of a repository class is rebuilt as
+    cls.__new__(cls) and given its state back - through __setstate__ if the class defines one, by updating __dict__ otherwise (the
+    state is what __getstate__ returns, or __dict__); lists, tuples and dicts are rebuilt element by element, scalars are kept.
+    Symbolic runs apply this contract directly; concrete replays use pickle.loads(pickle.dumps(obj))."""
+    if not env.sym:
+        import pickle
+        return pickle.loads(pickle.dumps(obj))
+
+    def walk(v):
+        if isinstance(v, list):
+            return [walk(x) for x in v]
+        if isinstance(v, tuple):
+            return tuple(walk(x) for x in v)
+        if isinstance(v, dict):
+            return {k: walk(x) for k, x in v.items()}
+        cls = type(v)
+        if getattr(cls, "__module__", "").startswith(prefix) and hasattr(v, "__dict__"):
+            gs = getattr(v, "__getstate__", None)
+            state = gs() if gs is not None else None
+            if state is None:
+                state = dict(v.__dict__)
+            state = walk(state)
+            new = cls.__new__(cls)
+            ss = getattr(new, "__setstate__", None)
+            if ss is not None:
+                ss(state)
+            else:
+                new.__dict__.update(state)
+            return new
+        return v
+    return walk(obj)
+
+
+def h_object_state(env, slmode):
+    """a FeatNormalizerList (the normaliser list inside FeatureSettings of every saved MappedXC) with symbolic constants and a symbolic
+    density cutoff >= 0 (0 is a supported value: no floor) evaluates identically after the object-state round trip that joblib / yaml
+    perform, below and above the cutoff"""
+    fn = env.m.fn
+    cutoff = env.par("cutoff", "nonneg", hi="1/1000")
+    c1, c2, p1, p2 = env.par("c1", "pos", hi="8"), env.par("c2", "nonneg", hi="8"), env.par("p1", "real", lo="-2", hi="2"), env.par("p2", "real", lo="-2", hi="2")
+    norms = [None, None, None, fn.DensityNormalizer(env.par("d1", "pos", hi="8"), env.par("dp", "real", lo="-2", hi="2")), fn.GeneralNormalizer(c1, c2, p1, p2)]
+    nl = fn.FeatNormalizerList(norms, slmode, cutoff=cutoff)
+    ok, nl2 = env.attempt("state_roundtrip_returns", lambda: _object_state_roundtrip(env, nl))
+    if not ok:
+        return
+    env.check("type", type(nl2) is type(nl) and nl2.nfeat == nl.nfeat and nl2.slmode == nl.slmode)
+    env.equal("cutoff_preserved", nl2.cutoff, nl.cutoff)
+    X = env.arr("X", (1, 5, 1), "nonneg", hi="64")
+    env.eps_zero()
+    y1 = nl.get_normalized_feature_vector(X.copy())
+    y2 = nl2.get_normalized_feature_vector(X.copy())
+    for i in range(5):
+        env.equal("normalised_feature_%d" % i, y1[0, i, 0], y2[0, i, 0])
+
+
 def h_unknown_code(env):
     td = env.m.td
     for code in ("", "Omega ", "u", "NOPE", None, 0):
@@ -282,6 +338,8 @@ def tasks(tier):
     # through the YAML layer (mappings come back in sorted-key order): long enough that "10" sorts before "2"
     out.append(Task("featlist_roundtrip/yaml/12maps", h_featlist_roundtrip, dict(classes=[names[i % len(names)] for i in range(12)], yaml_layer=True), max_paths=600))
     out.append(Task("featlist_roundtrip/yaml/3maps", h_featlist_roundtrip, dict(classes=names[3:6], yaml_layer=True), max_paths=600))
+    for slmode in (("npa", "ns") if tier == "quick" else ("npa", "nst", "np", "ns")):
+        out.append(Task("object_state/FeatNormalizerList/%s" % slmode, h_object_state, dict(slmode=slmode), max_paths=256))
     out.append(Task("unknown_code", h_unknown_code, {}))
     out.append(Task("splineset", h_splineset, {}))
     out.append(Task("to_dict/MappedDFTKernel", h_serializable_contract, dict(modname="xc_evaluator", clsname="MappedDFTKernel")))
@@ -314,7 +372,7 @@ META = dict(
     explanation="symbolic execution of as_dict/from_dict/to_dict of the real classes with symbolic parameters; "
                 "z3 decides that original and reloaded object produce the identical term; CrossHair (z3) on the "
                 "real from_dict/load_cider_model dispatch with symbolic strings; concrete YAML/joblib file round trip as validation",
-    functions=["ciderpress/dft/transform_data.py: <every class in ALL_CLASSES>.as_dict/from_dict, FeatureNormalizer.from_dict, FeatureList.as_dict/from_dict/dump/load",
+    functions=['ciderpress/dft/feat_normalizer.py: FeatNormalizerList / normaliser classes through the object-state round trip (__getstate__/__setstate__/__dict__), get_normalized_feature_vector (object_state/*)', "ciderpress/dft/transform_data.py: <every class in ALL_CLASSES>.as_dict/from_dict, FeatureNormalizer.from_dict, FeatureList.as_dict/from_dict/dump/load",
                "ciderpress/dft/xc_evaluator.py: SplineSetEvaluator.to_dict/from_dict, MappedDFTKernel.to_dict", "ciderpress/dft/xc_evaluator2.py: MappedDFTKernel2.to_dict",
                "ciderpress/dft/model_utils.py: load_cider_model"],
     bounds=dict(parameters="symbolic reals", features="symbolic in (0, 1e9]", cycles="2 save/load cycles", feature_lists="3 maps per list (all classes over the groups); through the YAML contract: 3 and 12 maps",
